@@ -473,7 +473,10 @@ class Engine:
                         return
                     c, node = h.cls.find_attr_node(attr)
                     if node is not None:
-                        yield st, self.class_attr(c, attr, node)
+                        v = self.class_attr(c, attr, node)
+                        if isinstance(v, StateGlobal):        # a class-level OBJECT (registry override): lives in each state's heap
+                            v = v.get(self, st)
+                        yield st, v
                         return
                     ga = h.cls.find_method('__getattr__')
                     if ga is not None:
@@ -528,7 +531,10 @@ class Engine:
                 return
             c, node = base.info.find_attr_node(attr)
             if node is not None:
-                yield st, self.class_attr(c, attr, node)
+                v = self.class_attr(c, attr, node)
+                if isinstance(v, StateGlobal):
+                    v = v.get(self, st)
+                yield st, v
                 return
             if attr == '__name__':
                 yield st, base.info.name
